@@ -18,7 +18,7 @@ import numpy as np
 from harness import core, gen
 from harness.core import F, Cut
 
-PROPS_MODULES = ["Pdq.Props.C08"]
+PROPS_MODULES = ["Pdq.Props.C08", "Pdq.Props.C08Embed", "Pdq.Props.SqrtRefine"]
 LEVEL = "proof"
 
 TOL = 2e-11  # relative, in the scale-aware metric described in DESIGN §2.3 (observed max on clean tree ~1e-13)
@@ -255,6 +255,14 @@ def check_merge(ctx, kind, c2, c1, tag):
 
 def check_den(ctx, kind, c, tag):
     out = c.preconditioner_apply()
+    for name in ("A", "to_latent", "to_observed"):
+        if np.shape(getattr(out, name)) != np.shape(getattr(c, name)):
+            ctx.violation(f"{kind}:preconditioner_apply:shape", f"preconditioner_apply changed the shape of {name}: {np.shape(getattr(c, name))} -> {np.shape(getattr(out, name))}",
+                          case_desc(kind, "preconditioner_apply", **tag, inputs=dump(*cond_slices(kind, c)[0])))
+            return
+    if np.shape(out.noise.mean_flat) != np.shape(c.noise.mean_flat) or np.shape(out.noise.cholesky_flat) != np.shape(c.noise.cholesky_flat):
+        ctx.violation(f"{kind}:preconditioner_apply:shape", "preconditioner_apply changed the shape of the noise", case_desc(kind, "preconditioner_apply", **tag))
+        return
     for idx, (sc, so) in enumerate(zip(cond_slices(kind, c), cond_slices(kind, out))):
         A, b, L, tl, to = sc
         k, n = A.shape
@@ -423,7 +431,7 @@ def check_normal(ctx, kind, rv, n, d, fkind, tag):
             mh, det = ctx.drv.call("g_maha", nn, mean, gramf(L), uu)
             maha_tot += mh
             per_dim_maha.append((mh, nn))
-            logdet_tot += math.log(float(det)) if det > 0 else float("nan")
+            logdet_tot += (math.log(det.numerator) - math.log(det.denominator)) if det > 0 else float("nan")
             size += nn
         expect = -0.5 * (float(maha_tot) + size * math.log(2 * math.pi) + logdet_tot)
         got = float(rv.logpdf_flat(jnp.asarray(u)))
@@ -439,6 +447,35 @@ def check_normal(ctx, kind, rv, n, d, fkind, tag):
             ctx.dev("whitened_rms", float(np.max(np.abs(got - exp) / np.maximum(np.abs(exp), 1e-300))), 1e-10,
                     case=case_desc(kind, "residual_whitened_rms", **tag, inputs=dump(m, _np(rv.cholesky_flat), u)), sig=f"{kind}:residual_whitened_rms",
                     what=f"whitened RMS {got!r} differs from sqrt(maha/size) = {exp!r}")
+
+
+def check_logpdf_extreme(ctx, kind, n, d, tag):
+    """log-densities of many-dimensional Gaussians with extreme (admissible) scales: the determinant leaves the float64
+    range although the log-density is perfectly representable"""
+    import jax.numpy as jnp
+
+    rng = ctx.rng
+    scale = float(gen.pick(rng, [1e-10, 1e-6, 1e6, 1e11, 1e-12, 1e12]))
+    rv0 = gen_rv(ctx, kind, n, d, "well")
+    _, Normal = make_impl(kind)
+    L = _np(rv0.cholesky_flat) * scale
+    m = _np(rv0.mean_flat)
+    rv = Normal(jnp.asarray(m), jnp.asarray(L), None)
+    u = m + scale * gen.dyadic(rng, m.shape, bits=5, scale=2.0)
+    maha_tot, logdet_tot, size = Fraction(0), 0.0, 0
+    for sl, uu in zip(rv_slices(kind, rv), pt_slices(kind, u)):
+        mean, Ls = sl
+        nn = Ls.shape[0]
+        mh, det = ctx.drv.call("g_maha", nn, mean, gramf(Ls), uu)
+        maha_tot += mh
+        logdet_tot += math.log(det.numerator) - math.log(det.denominator)
+        size += nn
+    expect = -0.5 * (float(maha_tot) + size * math.log(2 * math.pi) + logdet_tot)
+    got = float(rv.logpdf_flat(jnp.asarray(u)))
+    case = case_desc(kind, "logpdf-extreme-scale", **tag, scale=scale, inputs=dump(m, L, u))
+    ctx.dev("logpdf(extreme scale)", abs(got - expect) / (1.0 + abs(expect)) if math.isfinite(got) else float("inf"), 1e-10, case=case,
+            sig=f"{kind}:logpdf", what=f"logpdf {got!r} differs from -1/2(maha + N log 2pi + log det) = {expect!r} (N = {size}, scale {scale:g})")
+    ctx.case(case_desc(kind, "logpdf-extreme-scale", n=n, d=d, scale=scale))
 
 
 def check_batched(ctx, kind, k, n, d, tag):
@@ -561,6 +598,10 @@ def run(ctx):
             ctx.count("revert=lstsq_svd")
         check_normal(ctx, kind, gen_rv(ctx, kind, n, d, fk_rv, tf=tree_flatten_for(kind, n, d)), n, d, fk_rv, tag)
         ctx.case(tag, nontrivial=(n * d >= 2))
+        if it % 6 == 0:
+            # many dimensions: dense up to 9*5 = 45 (thorough) / 30 (quick)
+            nn_, dd_ = (int(rng.integers(6, 10)), int(rng.integers(3, 6))) if not ctx.quick else (int(rng.integers(5, 8)), int(rng.integers(3, 5)))
+            check_logpdf_extreme(ctx, kind, nn_, dd_, tag)
         if it % 20 == 0:
             check_batched(ctx, kind, k, n, d, tag)
             check_identity_and_derivative(ctx, kind, n, d, tag)
